@@ -151,6 +151,9 @@ func (i *NetflowV9) run() {
 		netflowV9UDPCh <- NetflowV9UDPMsg{raddr, b[:n]}
 	}
 
+	// the read loop is the only sender on the UDP channel: it closes the channel
+	// itself once it has left the loop (a close from shutdown could hit a send in flight)
+	close(netflowV9UDPCh)
 }
 
 func (i *NetflowV9) shutdown() {
@@ -169,9 +172,8 @@ func (i *NetflowV9) shutdown() {
 		logger.Println("couldn't not dump template", err)
 	}
 
-	// logging and close UDP channel
+	// logging (the UDP channel is closed by the read loop)
 	logger.Println("netflow v9 has been shutdown")
-	close(netflowV9UDPCh)
 }
 
 func (i *NetflowV9) netflowV9Worker(wQuit chan struct{}) {
